@@ -7,25 +7,35 @@
 mod engine;
 mod gen;
 mod p01;
+mod p02;
 mod rjson;
 mod runner;
 
 use engine::*;
 use std::path::PathBuf;
 
+type Module = (&'static str, fn(&mut Ctx), fn() -> Vec<Box<dyn DynCheck>>);
+
+fn modules() -> Vec<Module> {
+    vec![
+        ("C01", p01::run_all, p01::checks),
+        ("C02", p02::run_all, p02::checks),
+    ]
+}
+
 fn checks_for(prop: &str) -> Vec<Box<dyn DynCheck>> {
-    match prop {
-        "C01" => p01::checks(),
-        _ => vec![],
-    }
+    modules().into_iter().filter(|m| m.0 == prop).flat_map(|m| (m.2)()).collect()
 }
 
 fn run_property(ctx: &mut Ctx) -> bool {
-    match ctx.property.as_str() {
-        "C01" => p01::run_all(ctx),
-        _ => return false,
+    let p = ctx.property.clone();
+    match modules().into_iter().find(|m| m.0 == p) {
+        Some(m) => {
+            (m.1)(ctx);
+            true
+        }
+        None => false,
     }
-    true
 }
 
 fn all_checks() -> Vec<Box<dyn DynCheck>> {
